@@ -16,18 +16,24 @@ func pt(d string) {
 	}
 }
 
-func AddUint32(addr *uint32, delta uint32) uint32 { pt("atomic.add"); return ratomic.AddUint32(addr, delta) }
-func AddUint64(addr *uint64, delta uint64) uint64 { pt("atomic.add"); return ratomic.AddUint64(addr, delta) }
-func AddInt32(addr *int32, delta int32) int32     { pt("atomic.add"); return ratomic.AddInt32(addr, delta) }
-func AddInt64(addr *int64, delta int64) int64     { pt("atomic.add"); return ratomic.AddInt64(addr, delta) }
-func LoadUint32(addr *uint32) uint32              { pt("atomic.load"); return ratomic.LoadUint32(addr) }
-func LoadUint64(addr *uint64) uint64              { pt("atomic.load"); return ratomic.LoadUint64(addr) }
-func LoadInt32(addr *int32) int32                 { pt("atomic.load"); return ratomic.LoadInt32(addr) }
-func LoadInt64(addr *int64) int64                 { pt("atomic.load"); return ratomic.LoadInt64(addr) }
-func StoreUint32(addr *uint32, v uint32)          { pt("atomic.store"); ratomic.StoreUint32(addr, v) }
-func StoreUint64(addr *uint64, v uint64)          { pt("atomic.store"); ratomic.StoreUint64(addr, v) }
-func StoreInt32(addr *int32, v int32)             { pt("atomic.store"); ratomic.StoreInt32(addr, v) }
-func StoreInt64(addr *int64, v int64)             { pt("atomic.store"); ratomic.StoreInt64(addr, v) }
+func AddUint32(addr *uint32, delta uint32) uint32 {
+	pt("atomic.add")
+	return ratomic.AddUint32(addr, delta)
+}
+func AddUint64(addr *uint64, delta uint64) uint64 {
+	pt("atomic.add")
+	return ratomic.AddUint64(addr, delta)
+}
+func AddInt32(addr *int32, delta int32) int32 { pt("atomic.add"); return ratomic.AddInt32(addr, delta) }
+func AddInt64(addr *int64, delta int64) int64 { pt("atomic.add"); return ratomic.AddInt64(addr, delta) }
+func LoadUint32(addr *uint32) uint32          { pt("atomic.load"); return ratomic.LoadUint32(addr) }
+func LoadUint64(addr *uint64) uint64          { pt("atomic.load"); return ratomic.LoadUint64(addr) }
+func LoadInt32(addr *int32) int32             { pt("atomic.load"); return ratomic.LoadInt32(addr) }
+func LoadInt64(addr *int64) int64             { pt("atomic.load"); return ratomic.LoadInt64(addr) }
+func StoreUint32(addr *uint32, v uint32)      { pt("atomic.store"); ratomic.StoreUint32(addr, v) }
+func StoreUint64(addr *uint64, v uint64)      { pt("atomic.store"); ratomic.StoreUint64(addr, v) }
+func StoreInt32(addr *int32, v int32)         { pt("atomic.store"); ratomic.StoreInt32(addr, v) }
+func StoreInt64(addr *int64, v int64)         { pt("atomic.store"); ratomic.StoreInt64(addr, v) }
 func CompareAndSwapUint32(addr *uint32, o, n uint32) bool {
 	pt("atomic.cas")
 	return ratomic.CompareAndSwapUint32(addr, o, n)
@@ -47,10 +53,10 @@ func CompareAndSwapInt64(addr *int64, o, n int64) bool {
 
 type Uint32 struct{ v ratomic.Uint32 }
 
-func (x *Uint32) Load() uint32           { pt("atomic.load"); return x.v.Load() }
-func (x *Uint32) Store(v uint32)         { pt("atomic.store"); x.v.Store(v) }
-func (x *Uint32) Add(d uint32) uint32    { pt("atomic.add"); return x.v.Add(d) }
-func (x *Uint32) Swap(v uint32) uint32   { pt("atomic.swap"); return x.v.Swap(v) }
+func (x *Uint32) Load() uint32         { pt("atomic.load"); return x.v.Load() }
+func (x *Uint32) Store(v uint32)       { pt("atomic.store"); x.v.Store(v) }
+func (x *Uint32) Add(d uint32) uint32  { pt("atomic.add"); return x.v.Add(d) }
+func (x *Uint32) Swap(v uint32) uint32 { pt("atomic.swap"); return x.v.Swap(v) }
 func (x *Uint32) CompareAndSwap(o, n uint32) bool {
 	pt("atomic.cas")
 	return x.v.CompareAndSwap(o, n)
@@ -58,10 +64,10 @@ func (x *Uint32) CompareAndSwap(o, n uint32) bool {
 
 type Uint64 struct{ v ratomic.Uint64 }
 
-func (x *Uint64) Load() uint64           { pt("atomic.load"); return x.v.Load() }
-func (x *Uint64) Store(v uint64)         { pt("atomic.store"); x.v.Store(v) }
-func (x *Uint64) Add(d uint64) uint64    { pt("atomic.add"); return x.v.Add(d) }
-func (x *Uint64) Swap(v uint64) uint64   { pt("atomic.swap"); return x.v.Swap(v) }
+func (x *Uint64) Load() uint64         { pt("atomic.load"); return x.v.Load() }
+func (x *Uint64) Store(v uint64)       { pt("atomic.store"); x.v.Store(v) }
+func (x *Uint64) Add(d uint64) uint64  { pt("atomic.add"); return x.v.Add(d) }
+func (x *Uint64) Swap(v uint64) uint64 { pt("atomic.swap"); return x.v.Swap(v) }
 func (x *Uint64) CompareAndSwap(o, n uint64) bool {
 	pt("atomic.cas")
 	return x.v.CompareAndSwap(o, n)
@@ -69,10 +75,10 @@ func (x *Uint64) CompareAndSwap(o, n uint64) bool {
 
 type Int32 struct{ v ratomic.Int32 }
 
-func (x *Int32) Load() int32         { pt("atomic.load"); return x.v.Load() }
-func (x *Int32) Store(v int32)       { pt("atomic.store"); x.v.Store(v) }
-func (x *Int32) Add(d int32) int32   { pt("atomic.add"); return x.v.Add(d) }
-func (x *Int32) Swap(v int32) int32  { pt("atomic.swap"); return x.v.Swap(v) }
+func (x *Int32) Load() int32        { pt("atomic.load"); return x.v.Load() }
+func (x *Int32) Store(v int32)      { pt("atomic.store"); x.v.Store(v) }
+func (x *Int32) Add(d int32) int32  { pt("atomic.add"); return x.v.Add(d) }
+func (x *Int32) Swap(v int32) int32 { pt("atomic.swap"); return x.v.Swap(v) }
 func (x *Int32) CompareAndSwap(o, n int32) bool {
 	pt("atomic.cas")
 	return x.v.CompareAndSwap(o, n)
@@ -80,10 +86,10 @@ func (x *Int32) CompareAndSwap(o, n int32) bool {
 
 type Int64 struct{ v ratomic.Int64 }
 
-func (x *Int64) Load() int64         { pt("atomic.load"); return x.v.Load() }
-func (x *Int64) Store(v int64)       { pt("atomic.store"); x.v.Store(v) }
-func (x *Int64) Add(d int64) int64   { pt("atomic.add"); return x.v.Add(d) }
-func (x *Int64) Swap(v int64) int64  { pt("atomic.swap"); return x.v.Swap(v) }
+func (x *Int64) Load() int64        { pt("atomic.load"); return x.v.Load() }
+func (x *Int64) Store(v int64)      { pt("atomic.store"); x.v.Store(v) }
+func (x *Int64) Add(d int64) int64  { pt("atomic.add"); return x.v.Add(d) }
+func (x *Int64) Swap(v int64) int64 { pt("atomic.swap"); return x.v.Swap(v) }
 func (x *Int64) CompareAndSwap(o, n int64) bool {
 	pt("atomic.cas")
 	return x.v.CompareAndSwap(o, n)
@@ -91,9 +97,9 @@ func (x *Int64) CompareAndSwap(o, n int64) bool {
 
 type Bool struct{ v ratomic.Bool }
 
-func (x *Bool) Load() bool        { pt("atomic.load"); return x.v.Load() }
-func (x *Bool) Store(v bool)      { pt("atomic.store"); x.v.Store(v) }
-func (x *Bool) Swap(v bool) bool  { pt("atomic.swap"); return x.v.Swap(v) }
+func (x *Bool) Load() bool       { pt("atomic.load"); return x.v.Load() }
+func (x *Bool) Store(v bool)     { pt("atomic.store"); x.v.Store(v) }
+func (x *Bool) Swap(v bool) bool { pt("atomic.swap"); return x.v.Swap(v) }
 func (x *Bool) CompareAndSwap(o, n bool) bool {
 	pt("atomic.cas")
 	return x.v.CompareAndSwap(o, n)
